@@ -20,3 +20,22 @@ dyn_prop("C04", traj_fields={"state", "steps"}, resync_fields={"state", "reset"}
 dyn_prop("C05", resync_fields={"reward", "value", "state", "success"})
 dyn_prop("C06", traj_fields={"limit", "steps"}, resync_fields={"goal"}, direct_fields={"limit", "steps", "goal"})
 dyn_prop("C07", resync_fields={"success", "flags", "state", "used", "value"})
+
+import check_api
+
+API_SIZES = {
+    "C08": {"quick": (200, (5, 30)), "thorough": (4000, (5, 80))},
+    "C09": {"quick": (40, 10), "thorough": (600, 30)},
+    "C10": {"quick": (30, 25), "thorough": (400, 80)},
+    "C11": {"quick": (30, 10), "thorough": (400, 30)},
+    "C12": {"quick": (40, (5, 25)), "thorough": (700, (5, 60))},
+    "C13": {"quick": (60, (4, 14)), "thorough": (1200, (4, 40))},
+}
+for _pid, _sz in API_SIZES.items():
+    PROPS[_pid] = dict(module=check_api, sizes=_sz, coq_sample={"quick": 12, "thorough": 100})
+
+import check_load
+
+for _pid in ("C17", "C18"):
+    PROPS[_pid] = dict(module=check_load, sizes={"quick": (12, 1), "thorough": (150, 4)},
+                       coq_sample={"quick": 3, "thorough": 10})
